@@ -63,4 +63,27 @@ def handleGenRules (j : J) : Except String J := do
     ("setting", exJ psettingJ (Gen.C07Rules.assign_all_scope d st scope value lower upper const)),
     ("tail", exJ tJ (Gen.C07Rules.set_param_rule_tail ind isConst value lower init upper))])
 
+/-- the calc function of the `gennl` test definitions (the harness hands the real `_NonLeafDefn` the same one) -/
+def nlCalc (l : List Int) : Int := l.foldl (fun acc x => (acc * 31 + x + 7) % 1000003) 1
+
+/-- `gennl`: the translated `_NonLeafDefn.update` on one definition: inputs (scope ↦ ordinal, values), the mapping
+the definition held before (possibly stale) -/
+def handleGenNL (j : J) : Except String J := do
+  let args ← (← j.get "args").toListOf (fun a => do
+    let ord ← (← a.get "ord").toListOf J.toNat
+    let vals ← (← a.get "values").toListOf J.toOptInt
+    pure ({ ord := fun t => ord.getD t 0, values := vals } : NonLeaf.Arg Int))
+  let n ← (← j.get "n").toNat
+  let asg0 ← (← j.get "asg").toListOf (fun a => a.toListOf J.toNat)
+  let st : NonLeaf.St Int :=
+    { scopes := List.range n, asg := fun t => asg0.getD t [], uniq := [], index := fun _ => 0, values := [] }
+  match Gen.C07NonLeaf.update args nlCalc st with
+  | .error e => pure (J.obj [("err", .str e)])
+  | .ok r =>
+    let lnJ := fun (l : List Nat) => J.arr (l.map (fun k => J.num (Int.ofNat k)))
+    pure (J.obj [("asg", J.arr ((List.range n).map (fun t => lnJ (r.asg t)))),
+                 ("uniq", J.arr (r.uniq.map lnJ)),
+                 ("index", lnJ ((List.range n).map r.index)),
+                 ("values", J.arr (r.values.map (fun v => match v with | none => J.null | some x => J.num x)))])
+
 end C07GenDrv
